@@ -49,8 +49,12 @@ FailLoc(f) == IF f.step = "mounts_mkdir" THEN "mount(mkdir)" ELSE CodeLoc(f.step
 \* place does not depend on ptrace, stop or pivot: it is multiplied into the credential sites without those
 XOk(s, x) == x = 0 \/ (Bit(s, 0) /\ ~Bit(s, 4) /\ ~Bit(s, 5) /\ ~Bit(s, 8))
 
+\* the UTS dimension (LaunchSteps!MkOptXY) only touches the two name steps: multiplied into the UTS rows of
+\* the sites without ptrace, stop, pivot, sync
+YOk(s, r, y) == y = YDefault \/ (Bit(r, 3) /\ ~Bit(s, 4) /\ ~Bit(s, 5) /\ ~Bit(s, 6) /\ ~Bit(s, 8))
+
 Init ==
-  /\ opt \in UNION { { MkOptX(s, r, y) : r \in Rows, y \in { z \in 0..7 : XOk(s, z) } } : s \in Sites }
+  /\ opt \in UNION { { MkOptXY(s, r, y, w) : y \in { z \in 0..7 : XOk(s, z) }, w \in { z \in 0..8 : YOk(s, r, z) } } : s \in Sites, r \in Rows }
   /\ lsb \in Lsbs
   /\ path = ChildPath(opt)
   /\ fail = NoFail
